@@ -583,9 +583,9 @@ def get_diagonal(A, norm_eq=False, inv=False):
         # This transpose involves almost no work, use csr data structures as
         # csc, or vice versa
         At = A.T
-        D = (At.multiply(At.conjugate()))@np.ones((At.shape[0],))
+        D = (At.multiply(At.conjugate()))@np.ones((At.shape[1],))
     elif norm_eq == 2:
-        D = (A.multiply(A.conjugate()))@np.ones((A.shape[0],))
+        D = (A.multiply(A.conjugate()))@np.ones((A.shape[1],))
     else:
         D = A.diagonal()
 
